@@ -80,7 +80,7 @@ func (c *checker) finishTail() {
 	// to a consumer that has not taken it can neither lead nor follow properly, and that is the
 	// consumer's doing - the bounded-progress readings say nothing about raft then
 	for _, r := range up {
-		if s := c.server(r.S); len(s.notes) < s.enters+s.exits {
+		if s := c.server(r.S); c.notificationPending(s, r.T) {
 			c.cov("tail-notification-pending")
 			return
 		}
@@ -98,6 +98,7 @@ func (c *checker) finishTail() {
 		return
 	}
 	c.cov("tail-one-leader")
+	c.checkPreProbe()
 	L := leaders[0]
 	if probe == nil || !probe.returned || probe.err != "" {
 		e := "not issued"
@@ -268,4 +269,45 @@ func (c *checker) classifyNoLeader(up []sim.Ev) (string, string) {
 		return "no-leader-self-demoted-holder", fmt.Sprintf("nobody can win: %v", reasons)
 	}
 	return "no-leader-structural", fmt.Sprintf("nobody can win: %v", reasons)
+}
+
+// checkPreProbe: after the convergence wait and before anything new is written, every running
+// member of the leader's configuration has applied what the leader had committed: catching up must
+// not depend on further writes arriving.
+func (c *checker) checkPreProbe() {
+	var up, leaders []sim.Ev
+	for _, r := range c.preReads {
+		if r.Z == "down" {
+			continue
+		}
+		up = append(up, r)
+		if int(r.B) == Leader {
+			leaders = append(leaders, r)
+		}
+	}
+	if len(leaders) != 1 {
+		return // the readings after the probe decide about the leader
+	}
+	for _, r := range up {
+		if s := c.server(r.S); c.notificationPending(s, r.T) {
+			return
+		}
+	}
+	L := leaders[0]
+	cfg := ParseCfg(L.P)
+	c.cov("preprobe-checked")
+	for _, r := range up {
+		if r.S == L.S || !cfg.Has(r.S) {
+			continue
+		}
+		suffix := ""
+		for _, u := range c.userRestores {
+			if u.key.s == r.S && !c.restoreAdopted(u) {
+				suffix = "-after-unreplicated-user-restore"
+			}
+		}
+		if r.E < L.D {
+			c.violate("C12", "member-not-caught-up"+suffix, c.tailProbe, "before the probe write: %s (in the leader's configuration, connected) has applied index %d < the leader's commit index %d although the convergence budget is over and nothing new is being written; %s", r.S, r.E, L.D, describeReads(up))
+		}
+	}
 }
